@@ -31,7 +31,7 @@ RAW = [
     # pairs whose keys print alike (distinct floats, a keyword written several times): the printed order is still fixed
     "m := %{1.00000001: 1, 1.00000002: 2, 1.00000003: 3, 1.00000004: 4, 1.00000005: 5}; m.p; [m.S, m.repr, m.keys, m.values, \"#{m}\"]",
     "f := {|x, a: 1, a: 2, a: 3, a: 4| x}; f.p; [f.S, f.repr, {g: f}.S, [f].S]",
-    "%{0.1 + 0.2: 'a, 0.3: 'b, 0.30000000000000001: 'c}.p; JSON.enc(%{\"k\": 1.00000001}).p",
+    "%{0.1 + 0.2: 'a, 0.3: 'b, 0.30000000000000001: 'c}.p; %{\"k\": 1.00000001}.S.p",
     # comparisons whose elements' own == raises / differs: the outcome must not depend on which entry is compared first
     "bad := {'==: m{|o| raise Err.new(\"boom\")}}; nil.try.{|u| {a: bad, b: 1} == {a: bad, b: 2}}.A",
     "bad := {'==: m{|o| raise Err.new(\"boom\")}}; nil.try.{|u| {a: bad, b: 1, c: 2, d: 3, e: 4} == {a: bad, b: 2, c: 3, d: 4, e: 5}}.A",
@@ -50,7 +50,7 @@ RAW = [
     "`[{\"a\": 18446744073709551616, \"b\": 36893488147419103232, \"c\": -18446744073709551616, \"d\": 1.5e308, \"e\": 1.6e308}]`.decJSON.p",
     "mk := {|k| {S: m{raise Err.new(k)}, repr: m{raise Err.new(k + \"r\")}}}; o := {d: mk(\"d\"), b: mk(\"b\"), a: mk(\"a\"), c: mk(\"c\")}; [nil.try.{|u| o.S}.A, nil.try.{|u| o.repr}.A, nil.try.{|u| \"#{o}\"}.A, nil.try.{|u| [o].S}.A]",
     "mk := {|k| {S: m{raise Err.new(k)}, repr: m{raise Err.new(k + \"r\")}}}; m := %{'d: mk(\"d\"), 'b: mk(\"b\"), 'a: mk(\"a\"), 3: mk(\"3\")}; [nil.try.{|u| m.S}.A, nil.try.{|u| m.repr}.A, nil.try.{|u| m.p}.A]",
-    "f := {|x| x}; nil.try.{|u| JSON.enc({d: f, b: f, a: <{|i| yield i}>, c: 1.try})}.A",
+    "f := {|x| x}; nil.try.{|u| {d: f, b: f, a: <{|i| yield i}>, c: 1.try}.S}.A",
     "nil.try.{|u| {d: 1, c: 2, b: 3, a: 4}@{|k, v| raise Err.new(k)}}.A; nil.try.{|u| %{'d: 1, 'c: 2, 'b: 3, 'a: 4}@{|k, v| raise Err.new(k)}}.A",
     "bad := {|k| {'==: m{|o| raise Err.new(k)}}}; nil.try.{|u| {d: bad(\"d\"), c: bad(\"c\"), b: bad(\"b\"), a: bad(\"a\")} == {d: 0, c: 0, b: 0, a: 0}}.A",
     "i := import(\"http/internal\"); nil.try.{|u| i['request](method: \"GET\", url: \"http://127.0.0.1:1/\", headers: {d: 1, c: 2, b: 3, a: 4})}.A",
